@@ -4,7 +4,7 @@
    value converted in order and the FIRST conversion error returned from inside the loop) transcribe. A slot that is
    skipped (e.g. the variadic one) or an error test moved out of the loop changes the skeleton. *)
 From Coq Require Import List String.
-From Goom Require Import Gen.SigSkeleton Gen.ArgSkeleton Gen.MockerSkeleton.
+From Goom Require Import Gen.SigSkeleton Gen.ArgSkeleton Gen.MockerSkeleton Gen.ProxySkeleton.
 Import ListNotations.
 Open Scope string_scope.
 
@@ -109,3 +109,45 @@ Lemma uevar_set_skeleton_tie : unExportedVarMocker_set_skeleton =
    "m.targetValue = reflect.NewAt(m.typ, m.target)";
    "m.defaultVarMocker.doSet(value)"].
 Proof. reflexivity. Qed.
+
+(* C13, interface callbacks (internal/proxy/interface.go) as Model/Errors.iface_imp_check transcribes them: counts first
+   (the callback has one parameter more: the *IContext), then sizes slot by slot, parameters shifted by one *)
+Lemma iface_imp_skeleton_tie : checkInterfaceImp_skeleton =
+  ["impType := reflect.TypeOf(imp)";
+   "illegal := (func(cause error) error literal)";
+   "if impType.NumIn() != methodType.NumIn() + 1";
+   "  return illegal(erro.NewArgsNotMatchError(imp, impType.NumIn(), methodType.NumIn() + 1))";
+   "if impType.NumOut() != methodType.NumOut()";
+   "  return illegal(erro.NewReturnsNotMatchError(imp, impType.NumOut(), methodType.NumOut()))";
+   "for i := 0; i < methodType.NumIn(); i++";
+   "  if impType.In(i + 1).Size() != methodType.In(i).Size()";
+   "    return illegal(fmt.Errorf(""args %d's size must:%d, actual:%d"", i + 1, methodType.In(i).Size(), impType.In(i + 1).Size()))";
+   "for i := 0; i < methodType.NumOut(); i++";
+   "  if impType.Out(i).Size() != methodType.Out(i).Size()";
+   "    return illegal(fmt.Errorf(""returns %d's size must:%d, actual:%d"", i, methodType.Out(i).Size(), impType.Out(i).Size()))";
+   "return nil"].
+Proof. reflexivity. Qed.
+
+Lemma method_index_skeleton_tie : methodIndexOf_skeleton =
+  ["for i := 0; i < typ.NumMethod(); i++";
+   "  if method == typ.Method(i).Name";
+   "    return i, true";
+   "return 0, false"].
+Proof. reflexivity. Qed.
+
+(* check-before-write in proxy.Interface: the unknown-method refusal and the shape check come before the first statement
+   that touches the interface variable or the context (BackUpTo, the cached fake's table, applyIfaceTo) *)
+Fixpoint sk_index (p : string -> bool) (l : list string) (i : nat) : option nat :=
+  match l with [] => None | x :: r => if p x then Some i else sk_index p r (S i) end.
+Definition sk_before (a b : string) (l : list string) : bool :=
+  match sk_index (String.prefix a) l 0, sk_index (String.prefix b) l 0 with
+  | Some i, Some j => Nat.ltb i j
+  | _, _ => false
+  end.
+Definition iface_writes : list string :=
+  ["iface.BackUpTo("; "  fakeIface.Tab.Fun["; "  fakeIface.Data ="; "  applyIfaceTo("; "  fakeIface = iface.MakeInterface("; "  ctx.Cache("].
+Definition iface_checks : list string :=
+  ["if interfaceType.Kind() != reflect.Ptr"; "if typ.Kind() != reflect.Interface"; "if !found"; "if err := checkInterfaceImp("].
+Lemma iface_checks_before_writes :
+  forallb (fun c => forallb (fun w => sk_before c w Interface_skeleton) iface_writes) iface_checks = true.
+Proof. vm_compute. reflexivity. Qed.
